@@ -102,6 +102,40 @@ fn random_pair(r: &mut Rng, maxd: u64) -> ((usize, usize), (usize, usize)) {
     }
 }
 
+/// every shape class of the NumPy rule on the dimensions p, q > 1, with p2 != p, q2 != q (both > 1) for the near misses:
+/// the 15 compatible classes (equal full / row / column; a row, a column or a scalar against a full matrix, either side; column
+/// against row, either side; a scalar against a row or a column, either side) and 10 incompatible pairs that ALMOST broadcast
+/// (one dimension agrees or is 1, the other differs with neither side 1; the transposed shape).  `random_pair` draws 12 of them.
+fn class_pairs(p: usize, q: usize, p2: usize, q2: usize) -> Vec<((usize, usize), (usize, usize))> {
+    assert!(p > 1 && q > 1 && p2 > 1 && q2 > 1 && p2 != p && q2 != q);
+    let mut v = vec![
+        ((p, q), (p, q)), ((1, q), (1, q)), ((p, 1), (p, 1)),
+        ((1, q), (p, q)), ((p, 1), (p, q)), ((p, q), (1, q)), ((p, q), (p, 1)),
+        ((p, 1), (1, q)), ((1, q), (p, 1)),
+        ((1, 1), (p, q)), ((p, q), (1, 1)), ((1, 1), (1, q)), ((1, q), (1, 1)), ((1, 1), (p, 1)), ((p, 1), (1, 1)),
+        // incompatible: exactly one dimension differs, neither side 1 there
+        ((p, q), (p, q2)), ((p, q), (p2, q)),
+        ((1, q), (p, q2)), ((p, q2), (1, q)), ((p, 1), (p2, q)), ((p2, q), (p, 1)),
+        ((1, q), (1, q2)), ((p, 1), (p2, 1)),
+        ((p, q), (p2, q2)),
+    ];
+    if p != q { v.push(((p, q), (q, p))); }   // the transposed shape: same element count, incompatible
+    v
+}
+/// the class pairs one operand kind can express (a Vector operand is a single row)
+fn class_pairs_of_kind(kind: usize, p: usize, q: usize, p2: usize, q2: usize) -> Vec<((usize, usize), (usize, usize))> {
+    class_pairs(p, q, p2, q2).into_iter().filter(|(s1, s2)| match kind { 0 => true, 1 => s2.0 == 1, _ => s1.0 == 1 }).collect()
+}
+/// neighbours for the near misses: off by one (alternating sides), kept inside 2..=max(40, the dimension)
+fn near(d: usize, up: bool) -> usize { if (up && d != 40) || d <= 2 { d + 1 } else { d - 1 } }
+/// dimensions above the exhaustive range, every value 7..=40 once as a row count and once as a column count, then the
+/// corners of the stated range (40x40 = the stated maximum, 40 against the smallest non-unit extent, squares)
+fn boundary_dims() -> Vec<(usize, usize)> {
+    let mut v: Vec<(usize, usize)> = (7..=40usize).map(|d| (d, 47 - d)).collect();
+    v.extend_from_slice(&[(40, 40), (40, 39), (39, 40), (40, 2), (2, 40), (39, 39), (33, 33), (32, 32), (17, 17), (16, 16), (9, 9), (8, 8), (7, 7)]);
+    v
+}
+
 struct Job { stream: &'static str, op: usize, kind: usize, form: usize, s1: (usize, usize), a: Vec<f64>, s2: (usize, usize), b: Vec<f64> }
 fn job(v: &mut Vec<Job>, stream: &'static str, op: usize, kind: usize, form: usize, s1: (usize, usize), a: &[f64], s2: (usize, usize), b: &[f64]) {
     v.push(Job { stream, op, kind, form, s1, a: a.to_vec(), s2, b: b.to_vec() });
@@ -123,6 +157,7 @@ pub fn gen(tier: &str, seed: u64, outdir: &str) {
             if thorough { for form in 0..4 { job(&mut small, "exhaustive", op, 0, form, (r1, c1), &a, (r2, c2), &b); } }
             else { job(&mut small, "exhaustive", op, 0, rot % 4, (r1, c1), &a, (r2, c2), &b); rot += 1; }
         }
+        rot += 1; // 5 steps per pair: an operator is not tied to one ownership form (all 16 impls of the kind meet every class)
     }}}}
     // 2. Matrix o Vector and Vector o Matrix: vector length 1..=6 x all 36 matrix shapes x 4 operators
     for n in 1..=6usize { for rm in 1..=6usize { for cm in 1..=6usize {
@@ -135,6 +170,7 @@ pub fn gen(tier: &str, seed: u64, outdir: &str) {
                 else { job(&mut small, "exhaustive", op, kind, rot % 4, s1, a, s2, b); rot += 1; }
             }
         }
+        rot += 1; // 9 steps per triple, for the same reason
     }}}
     // 3. random larger shapes up to 40x40 (real entries; a quarter with special values: signed zeros, inf, NaN, subnormals)
     let nbig = if thorough { 1500 } else { 40 };
@@ -154,6 +190,23 @@ pub fn gen(tier: &str, seed: u64, outdir: &str) {
         if kind == 1 { s2 = (1, s2.1); } else if kind == 2 { s1 = (1, s1.1); }
         let (a, b) = (with_specials(&mut r, s1.0 * s1.1), with_specials(&mut r, s2.0 * s2.1));
         job(&mut small, "special-values", (it / 3 % 4) as usize, kind, r.below(4) as usize, s1, &a, s2, &b);
+    }
+    // 3c. boundary of the stated range: every shape class (the 15 compatible ones, the near-miss incompatible ones) x every operand
+    //     kind that can express it, on 40x40 (the stated maximum) and one mid-range pair (quick) / on every dimension 7..=40 and the
+    //     corners (thorough); operator and ownership form rotate through all 16 combinations; every third case has special values
+    let bdims: Vec<(usize, usize)> = if thorough { boundary_dims() } else { vec![(40, 40), (13, 34)] };
+    let mut k = 0usize;
+    for (p, q) in bdims {
+        let (p2, q2) = (near(p, p % 2 == 0), near(q, p % 2 == 1));
+        for kind in 0..3usize { for (s1, s2) in class_pairs_of_kind(kind, p, q, p2, q2) {
+            let reps = if thorough && (p, q) == (40, 40) { 4 } else { 1 };
+            for _ in 0..reps {
+                let (a, b) = if k % 3 == 2 { (with_specials(&mut r, s1.0 * s1.1), with_specials(&mut r, s2.0 * s2.1)) }
+                             else { (distinct(&mut r, s1.0 * s1.1, 0.37, -3.0), distinct(&mut r, s2.0 * s2.1, -1.3, 0.7)) };
+                job(&mut big, "boundary", k % 4, kind, (k / 4) % 4, s1, &a, s2, &b);
+                k += 1;
+            }
+        }}
     }
     // 4. malformed stream: the empty Vector (its promotion to a 1x0 matrix panics) and the 0x0 `Matrix::empty()`
     for op in 0..4 { for form in 0..4 {
@@ -186,7 +239,7 @@ pub fn gen(tier: &str, seed: u64, outdir: &str) {
     }
     for j in bigs { push(&mut cs, j.stream, j.op, j.kind, j.form, j.s1, &j.a, j.s2, &j.b); }
     cs.write(outdir, 700,
-             "all 1296 shape pairs (rows, cols in 1..=6) x {+,-,*,/} for Matrix o Matrix, and vector length 1..=6 x all 36 matrix shapes x 4 operators for Matrix o Vector and Vector o Matrix, with distinct-valued entries (quick: one ownership form per case, rotating over the four; thorough: all four forms = all 48 impls on every pair); random larger shapes up to 40x40; special values (signed zeros, inf, NaN, subnormals); a malformed stream (empty Vector, 0x0 Matrix::empty()); non-trivial = a pair that broadcasts: shapes differ, compatible, a value is returned; distinct by hash of the case term");
+             "all 1296 shape pairs (rows, cols in 1..=6) x {+,-,*,/} for Matrix o Matrix, and vector length 1..=6 x all 36 matrix shapes x 4 operators for Matrix o Vector and Vector o Matrix, with distinct-valued entries (quick: one ownership form per case, rotating over the four; thorough: all four forms = all 48 impls on every pair); random larger shapes up to 40x40; every shape class (compatible and near-miss incompatible) x operand kind on 40x40 and 13x34 (thorough: on every dimension 7..=40 and the corners of the range); special values (signed zeros, inf, NaN, subnormals); a malformed stream (empty Vector, 0x0 Matrix::empty()); non-trivial = a pair that broadcasts: shapes differ, compatible, a value is returned; distinct by hash of the case term");
 }
 
 // ---------------------------------------------------------------------------------------------
@@ -250,6 +303,49 @@ pub fn oracle(tier: &str, seed: u64) -> (u64, Vec<Finding>) {
         let kind = r.below(3) as usize;
         if kind == 1 { s2 = (1, s2.1); } else if kind == 2 { s1 = (1, s1.1); }
         let (a, b) = if it % 4 == 3 { (with_specials(&mut r, s1.0 * s1.1), with_specials(&mut r, s2.0 * s2.1)) }
+                     else { (distinct(&mut r, s1.0 * s1.1, 0.37, -3.0), distinct(&mut r, s2.0 * s2.1, -1.3, 0.7)) };
+        judge(&mut out, r.below(4) as usize, kind, r.below(4) as usize, s1, &a, s2, &b);
+        tried += 1;
+        if out.len() > 40 { break; }
+    }
+    // ---- added by the coverage audit (own generator: every evaluation above is unchanged) ----
+    let mut r = Rng::new(seed ^ 0xC12_B0);
+    // boundary sweep: every dimension 7..=40 (as a row count and as a column count), the corners of the stated range (40x40, 40 against 2,
+    // 39/40 off-by-one, squares) x every shape class of `class_pairs` (15 compatible, 10 near-miss incompatible; `random_pair` never draws
+    // scalar-row, scalar-col, col-scalar for Matrix o Matrix, nor a near miss with one side a row / column) x every operand kind that can
+    // express the class x 4 operators x 4 ownership forms with distinct entries, and once more with special values (ownership form rotating)
+    let mut rot = 0usize;
+    for (p, q) in boundary_dims() {
+        let (p2, q2) = (near(p, p % 2 == 0), near(q, p % 2 == 1));
+        for kind in 0..3usize { for (s1, s2) in class_pairs_of_kind(kind, p, q, p2, q2) {
+            let a = distinct(&mut r, s1.0 * s1.1, 0.37, -3.0); let b = distinct(&mut r, s2.0 * s2.1, -1.3, 0.7);
+            for op in 0..4 { for form in 0..4 { judge(&mut out, op, kind, form, s1, &a, s2, &b); tried += 1; } }
+            let (a, b) = (with_specials(&mut r, s1.0 * s1.1), with_specials(&mut r, s2.0 * s2.1));
+            for op in 0..4 { judge(&mut out, op, kind, (op + rot) % 4, s1, &a, s2, &b); tried += 1; }
+            rot += 1;
+            if out.len() > 40 { return (tried, out); }
+        }}
+    }
+    // beyond the sampled range (the statement is about every shape; the theorems cover them, these are a few direct evaluations)
+    for (p, q) in [(41usize, 43usize), (64, 64), (65, 63), (100, 3), (3, 100), (257, 2)] {
+        let (p2, q2) = (near(p, true), near(q, false));
+        for kind in 0..3usize { for (s1, s2) in class_pairs_of_kind(kind, p, q, p2, q2) {
+            let a = distinct(&mut r, s1.0 * s1.1, 0.37, -3.0); let b = distinct(&mut r, s2.0 * s2.1, -1.3, 0.7);
+            for op in 0..4 { judge(&mut out, op, kind, (op + rot) % 4, s1, &a, s2, &b); tried += 1; }
+            rot += 1;
+        }}
+    }
+    // random shapes, all 25 classes drawn uniformly (dimensions 2..=40 half of the time, 2..=9 otherwise), special values half of the time
+    for it in 0..iters {
+        let maxd = if it % 2 == 0 { 40 } else { 9 };
+        let d = |r: &mut Rng| 2 + r.below(maxd - 1) as usize;
+        let (p, q) = (d(&mut r), d(&mut r));
+        let (mut p2, mut q2) = (d(&mut r), d(&mut r));
+        if p2 == p { p2 = near(p, it % 4 < 2); } if q2 == q { q2 = near(q, it % 4 >= 2); }
+        let kind = r.below(3) as usize;
+        let cp = class_pairs_of_kind(kind, p, q, p2, q2);
+        let (s1, s2) = cp[r.below(cp.len() as u64) as usize];
+        let (a, b) = if it % 4 >= 2 { (with_specials(&mut r, s1.0 * s1.1), with_specials(&mut r, s2.0 * s2.1)) }
                      else { (distinct(&mut r, s1.0 * s1.1, 0.37, -3.0), distinct(&mut r, s2.0 * s2.1, -1.3, 0.7)) };
         judge(&mut out, r.below(4) as usize, kind, r.below(4) as usize, s1, &a, s2, &b);
         tried += 1;
